@@ -29,6 +29,8 @@ pub trait SeqOps {
     fn elem_ty(&self) -> Ty;
     fn has_iter(&self) -> bool;
     fn build(&self, cap: usize) -> usize;
+    /// Append value i repeated k times to the domain; returns its index.
+    fn add_repeated(&self, i: usize, k: usize) -> usize;
     fn val(&self, i: usize) -> Val;
     fn owned(&self, i: usize) -> Vec<usize>;
     /// Serialize value i from source kind `src` in context `ctx` through a scripted writer.
@@ -93,6 +95,14 @@ macro_rules! seq_ops {
             fn elem_ty(&self) -> Ty { <$t as Dom>::ty() }
             fn has_iter(&self) -> bool { true }
             fn build(&self, cap: usize) -> usize { let (v, _, _) = domain::<Vec<$t>>(cap); let n = v.len(); *self.0.borrow_mut() = v; n }
+            fn add_repeated(&self, i: usize, k: usize) -> usize {
+                let mut d = self.0.borrow_mut();
+                let base = d[i].clone();
+                let mut big = Vec::with_capacity(base.len() * k);
+                for _ in 0..k { big.extend(base.iter().cloned()); }
+                d.push(big);
+                d.len() - 1
+            }
             fn val(&self, i: usize) -> Val { self.0.borrow()[i].to_val() }
             fn owned(&self, i: usize) -> Vec<usize> { let mut o = vec![]; self.0.borrow()[i].owned(&mut o); o.into_iter().map(|x| x.0).collect() }
             fn ser(&self, i: usize, src: Src, ctx: Ctx, w: &mut ScriptWriter) -> Out<usize> {
@@ -131,6 +141,14 @@ macro_rules! seq_ops {
             fn elem_ty(&self) -> Ty { <$t as Dom>::ty() }
             fn has_iter(&self) -> bool { false }
             fn build(&self, cap: usize) -> usize { let (v, _, _) = domain::<Vec<$t>>(cap); let n = v.len(); *self.0.borrow_mut() = v; n }
+            fn add_repeated(&self, i: usize, k: usize) -> usize {
+                let mut d = self.0.borrow_mut();
+                let base = d[i].clone();
+                let mut big = Vec::with_capacity(base.len() * k);
+                for _ in 0..k { big.extend(base.iter().cloned()); }
+                d.push(big);
+                d.len() - 1
+            }
             fn val(&self, i: usize) -> Val { self.0.borrow()[i].to_val() }
             fn owned(&self, i: usize) -> Vec<usize> { let mut o = vec![]; self.0.borrow()[i].owned(&mut o); o.into_iter().map(|x| x.0).collect() }
             fn ser(&self, i: usize, src: Src, ctx: Ctx, w: &mut ScriptWriter) -> Out<usize> {
@@ -188,6 +206,28 @@ fn sink_all(ops: &dyn SeqOps, i: usize, src: Src, ctx: Ctx) -> (Out<usize>, Vec<
 pub fn c16(ops: &dyn SeqOps, cx: &mut Cx) {
     let n = ops.build(cx.tier.pick(30, 200));
     let srcs: Vec<Src> = if ops.has_iter() { vec![Src::Slice, Src::Iter] } else { vec![Src::Slice] };
+    // long sequences (thousands of items: past 4 KiB / 8 KiB / 64 KiB of payload for most item types)
+    if n > 0 {
+        for k in [700usize, 9_000] {
+            let li = ops.add_repeated(n - 1, k);
+            let nitems = match ops.val(li) { Val::Seq(v) => v.len(), _ => 0 };
+            for ctx in [Ctx::Alone, Ctx::G1] {
+                cx.evals += 1;
+                let (rv, vb) = sink_all(ops, li, Src::Vec, ctx);
+                if !matches!(rv, Out::Ok(_)) { continue; }
+                let mask = ops.mask(li, ctx);
+                for src in &srcs {
+                    cx.evals += 1;
+                    let (r, b) = sink_all(ops, li, *src, ctx);
+                    match &r {
+                        Out::Ok(cnt) if *cnt == vb.len() && (b == vb || (mask.len() == vb.len() && vcore::checks::masked_eq(&b, &vb, &mask))) => cx.outcome("long-sequence-bytes-identical"),
+                        Out::Ok(_) => cx.violate(&format!("{:?}-long-sequence-bytes-differ-from-vec", src).to_lowercase(), json!({"items": nitems, "context": format!("{:?}", ctx), "len": b.len(), "vec_len": vb.len()})),
+                        o => cx.violate(&format!("{:?}-long-sequence-ser-{}", src, o.class()).to_lowercase(), json!({"items": nitems, "context": format!("{:?}", ctx), "observed": o.describe()})),
+                    }
+                }
+            }
+        }
+    }
     for i in 0..n {
         let want = ops.val(i);
         cx.case(vcore::cx::hash64(&[cx.type_id.as_bytes(), format!("{:?}", want).as_bytes()]), true);
